@@ -70,6 +70,10 @@ def check(ctx):
     check_drop_level_guards(ctx)
     check_flatten_rebinding(ctx)
     check_flatten_union_complete(ctx)
+    # with a level dropped, the election consults only lists of nodes
+    # the reduced tree has (shared with C08)
+    from .C08 import check_lists_consulted_follow_tree
+    check_lists_consulted_follow_tree(ctx)
     check_stats_through_tree(ctx)
     # the level that was dropped is filled in from the finer assignment by
     # the parent table of *that* level (shared with C01)
